@@ -252,16 +252,16 @@ sellers paid 15000 -/
 def opsD2 : List Op :=
   [ .block 1 100,
     .createPair 1 0 (.coin 1) (.coin 2) true,
-    .order 1 1 1 .limit false 20000 1000000000000000000 1000000000000000000 15000 3600 true,
-    .order 1 2 1 .limit false 20000 1000000000000000000 1000000000000000000 15000 3600 true,
-    .order 1 3 1 .limit true 20000 1000000000000000000 1000000000000000000 16000 3600 true,
+    .order 1 1 1 .limit false (.coin 1) (.coin 2) 20000 1000000000000000000 15000 3600,
+    .order 1 2 1 .limit false (.coin 1) (.coin 2) 20000 1000000000000000000 15000 3600,
+    .order 1 3 1 .limit true (.coin 2) (.coin 1) 20000 1000000000000000000 16000 3600,
     .endBlock 1 [{ pair := 1, fills := [{ id := 1, buy := false, paid := 15000, recv := 15000, matched := 15000 },
                                         { id := 3, buy := true, paid := 16000, recv := 16000, matched := 16000 }],
                    pools := [], dust := 1000 }] [] [] ]
 
 theorem pair_escrow_ge_orders_counterexample :
     (after cfg1 funds1 opsD2).bal (.pairEscrow 1 1) (.coin 1) < remSum 1 1 (.coin 1) (after cfg1 funds1 opsD2).orders := by
-  decide
+  decide +kernel
 
 /-- the D2 book of C05 (two sells 15000 @ 0.0001, one buy 16000 @ 0.0002, last price 0.00009) run through the modelled
 matcher: the ledger input built from the run has no quote deficit and a base deficit of exactly the 1000 dropped coins -/
@@ -285,8 +285,8 @@ def opsOK : List Op :=
   [ .block 1 100,
     .createPair 1 0 (.coin 1) (.coin 2) true,
     .createPool 1 3 1 false 500000 0 0 true,          -- rejected: base amount below the minimum
-    .order 1 1 1 .limit false 20000 1000000000000000000 1000000000000000000 15000 3600 true,
-    .order 1 3 1 .limit true 20000 1000000000000000000 1000000000000000000 10000 3600 true,
+    .order 1 1 1 .limit false (.coin 1) (.coin 2) 20000 1000000000000000000 15000 3600,
+    .order 1 3 1 .limit true (.coin 2) (.coin 1) 20000 1000000000000000000 10000 3600,
     .endBlock 1 [{ pair := 1, fills := [{ id := 1, buy := false, paid := 10000, recv := 10000, matched := 10000 },
                                         { id := 2, buy := true, paid := 10000, recv := 10000, matched := 10000 }],
                    pools := [], dust := 0 }] [] [],
@@ -297,9 +297,9 @@ theorem opsOK_conserving : ∀ op ∈ opsOK, OpConserving op := by
   simp only [opsOK, List.mem_cons, List.not_mem_nil, or_false] at hop
   rcases hop with rfl | rfl | rfl | rfl | rfl | rfl | rfl
   all_goals first | trivial | (intro m hm; simp at hm; subst hm; decide)
-example : ((after cfg1 funds1 opsOK).orders.map fun o => (o.id, o.remaining, o.status)) = [(1, 5000, .partially)] := by decide
-example : (after cfg1 funds1 opsOK).bal (.pairEscrow 1 1) (.coin 1) = 5045 := by decide
-example : remSum 1 1 (.coin 1) (after cfg1 funds1 opsOK).orders = 5000 := by decide
+example : ((after cfg1 funds1 opsOK).orders.map fun o => (o.id, o.remaining, o.status)) = [(1, 5000, .partially)] := by decide +kernel
+example : (after cfg1 funds1 opsOK).bal (.pairEscrow 1 1) (.coin 1) = 5045 := by decide +kernel
+example : remSum 1 1 (.coin 1) (after cfg1 funds1 opsOK).orders = 5000 := by decide +kernel
 example : touchesSupply 1 1 (.createPool 1 0 1 false 5 5 5 true) := rfl
 /-- queue of three ages (oldest first) 50@t1, 30@t2, 20@t3: unfarming 35 takes 20 from the newest and 15 from the middle -/
 example : keepNonzero (deduct [(50, 1), (30, 2), (20, 3)] 35).1 = [(50, 1), (15, 2)] ∧ (deduct [(50, 1), (30, 2), (20, 3)] 35).2 = 0 ∧
@@ -307,6 +307,6 @@ example : keepNonzero (deduct [(50, 1), (30, 2), (20, 3)] 35).1 = [(50, 1), (15,
 /-- maturation at time 100 with duration 60: entries created at 10 and 40 are mature, the one at 70 is not -/
 example : activate 60 100 { app := 1, pool := 1, owner := 0, queued := [(5, 10), (7, 40), (9, 70)], active := 2 } =
     { app := 1, pool := 1, owner := 0, queued := [(9, 70)], active := 14 } := by decide
-example : coinTotal 1 (after cfg1 funds1 opsOK).bank = 2000000 ∧ coinTotal 1 (genesis funds1).bank = 2000000 := by decide
+example : coinTotal 1 (after cfg1 funds1 opsOK).bank = 2000000 ∧ coinTotal 1 (genesis funds1).bank = 2000000 := by decide +kernel
 
 end Comdex.C04
